@@ -349,7 +349,50 @@ func c02Oracle(c *oracleCtx) {
 	}
 }
 
+// FormatString reflects the current content: also when a nested container was changed through its own handle
+// between two calls with the same indent
+func c16AfterNestedChange(c *oracleCtx) {
+	for indent := 0; indent <= 10; indent += 2 {
+		indent := indent
+		c.check(fmt.Sprintf("fmt-after-nested-change:%d", indent), true, func() string {
+			inner, deep := NewList(1), NewObject("d", NewList())
+			o := NewObject("l", inner, "o", deep, "n", 1)
+			l := NewList(inner, deep, "s")
+			agree := func(what string, got string, src string) string {
+				var buf bytes.Buffer
+				json.Indent(&buf, []byte(src), "", strings.Repeat(" ", indent))
+				var a, b any
+				if json.Unmarshal([]byte(got), &a) != nil || json.Unmarshal([]byte(src), &b) != nil || !reflect.DeepEqual(a, b) {
+					return fmt.Sprintf("%s FormatString(%d) denotes other data than String() (stale text?): %q vs %q", what, indent, got, src)
+				}
+				if _, isList := b.([]any); isList && got != buf.String() {
+					return fmt.Sprintf("%s FormatString(%d) is not the canonical layout", what, indent)
+				}
+				return ""
+			}
+			for step := 0; step < 4; step++ {
+				if m := agree("object", o.FormatString(indent), o.String()); m != "" {
+					return m
+				}
+				if m := agree("list", l.FormatString(indent), l.String()); m != "" {
+					return m
+				}
+				switch step {
+				case 0:
+					inner.Add("added")
+				case 1:
+					deep.GetList("d").Add(NewObject("x", 1))
+				case 2:
+					o.SetTF(".o.d#0.x", 2)
+				}
+			}
+			return ""
+		})
+	}
+}
+
 func c16Oracle(c *oracleCtx) {
+	c16AfterNestedChange(c)
 	c.rule = "B-RT trees x indents -1..11: FormatString(n) must be non-empty valid JSON equal to json.Indent(String()) and denote the same data; indents outside 0..10 must panic"
 	c.bound = "B-RT tree set x 13 indents"
 	specs := treeSpecs(c)
@@ -425,6 +468,28 @@ func jsonDocs(c *oracleCtx) []string {
 	keys := []string{"\"k\x7f\"", "\"\u0085\"", `"\udbff\udfff"`, `"a\\\\"`, `""`, `"a b"`, `"\""`, `"\/"`, `"\u0041"`, `"\uD83D\uDE00"`, `"é"`, `"a.b#c"`}
 	for _, k := range keys {
 		docs = append(docs, "{"+k+":1}", "{"+k+":{"+k+":[]}}")
+	}
+	// a string ending in an escaped backslash followed by strings containing "//" (comment look-alikes), "/*", "#"
+	docs = append(docs, `["C:\\","http://x/y"]`, `{"p":"a\\","u":"file:///x","n":1}`, "{\"p\":\"a\\\\\",\n\"u\":\"http://h\",\n\"k\":[1,2]}", `["/* c */","# h","a//b"]`, `["\\\\","//"]`)
+	// many records whose last member is a container (a per-document counter that leaks would trip here)
+	{
+		var sb strings.Builder
+		sb.WriteString("[")
+		for i := 0; i < 10050; i++ {
+			if i > 0 {
+				sb.WriteString(",")
+			}
+			sb.WriteString(`{"a":[1]}`)
+		}
+		sb.WriteString(`,[[{"z":{}}]]]`)
+		docs = append(docs, sb.String())
+		var so strings.Builder
+		so.WriteString("{")
+		for i := 0; i < 10050; i++ {
+			so.WriteString(`"k` + strconv.Itoa(i) + `":{"a":{}},`)
+		}
+		so.WriteString(`"last":[[1]]}`)
+		docs = append(docs, so.String())
 	}
 	docs = append(docs, "[]", "{}", "[[]]", "[{}]", `{"a":{}}`, "[[[[1]]]]", "[1,[2,[3,[4]]],{\"a\":[5]}]", " \n[1]\n ", "\n{\"a\":1}\n")
 	return docs
@@ -657,6 +722,14 @@ func c20Oracle(c *oracleCtx) {
 		{"str-bs-newline-list", "[\"ab\\%ncd\",%n", `tru,`, 3, `1]`},
 		{"str-bs-newline-obj", "{\"k\":\"v\\%nw\",%n", `x`, 0, `"b":2}`},
 		{"key-bs-newline-obj", "{\"k\\%nk\":{%n", `x`, 0, `"b":2}}`},
+		// an invalid literal that itself spans lines (a missing comma): the cited line is that of the terminating delimiter
+		{"literal-spans-lines-list", "[%n", "tru\ne1,", 6, `2]`},
+		{"missing-comma-obj", "{\n \"a\": 1%n\n \"b\": 2\n", "}", 0, ``},
+		// nested empty containers spread over lines, closed where a key / value could start, before a later error
+		{"empty-obj-lines-list", "[{\n%n},{\n},\n", `tru,`, 3, `1]`},
+		{"empty-obj-lines-obj", "{\"a\":{\n%n\n},\"b\":{%n},\n", `x`, 0, `"c":1}`},
+		{"trailing-comma-nested", "{\"a\":{\"b\":1,\n%n},\n", `;`, 0, `"c":1}`},
+		{"empty-list-lines", "[[\n%n],[\n],\n", `nul,`, 3, `1]`},
 		// carriage returns are not line breaks: lone CR, CR LF
 		{"cr-list", "[\r1,\r%n2,\r\r", `tru,`, 3, `1]`},
 		{"cr-obj", "{\r\"a\":1,\r%n\r", `x`, 0, `"b":2}`},
